@@ -9,6 +9,7 @@ from ..core import check, Violation, Rejected
 from ..gen import par
 
 ID = "C03"
+IMPORTS = ['rig.place_and_route.route.ner']
 LEVEL = "exploration"
 TECHNIQUE = ("runtime post-condition monitor: independent tree validator and "
              "strong-connectivity oracle over generated fault maps; "
